@@ -1,6 +1,7 @@
 package interp
 
 import (
+	"os"
 	"fmt"
 	"go/constant"
 	"go/token"
@@ -142,6 +143,8 @@ func (it *Interp) callFunction(fn *ssa.Function, args []Val) Val {
 	return it.callFunctionB(fn, args, nil)
 }
 
+var traceCalls = os.Getenv("VERIF_TRACE_CALLS") != ""
+
 func (it *Interp) callFunctionB(fn *ssa.Function, args []Val, bind []Val) (ret Val) {
 	if fn.Blocks == nil {
 		it.unsupported("function without body: " + fn.String())
@@ -153,6 +156,9 @@ func (it *Interp) callFunctionB(fn *ssa.Function, args []Val, bind []Val) (ret V
 		it.endPath("recursion bound", true)
 	}
 	it.curFn = append(it.curFn, fn)
+	if traceCalls {
+		fmt.Fprintf(os.Stderr, "CALL p%d s%d %s\n", it.res.Paths, it.res.Steps, fn.String())
+	}
 	if !it.res.Functions[fn.String()] {
 		it.res.Functions[fn.String()] = true
 	}
